@@ -5,7 +5,7 @@ use std::borrow::Cow;
 use winnow::{
     ascii::{line_ending, space0, space1, till_line_ending},
     combinator::{
-        alt, delimited, dispatch, opt, peek, preceded, repeat, separated, terminated, trace,
+        alt, delimited, dispatch, eof, opt, peek, preceded, repeat, separated, terminated, trace,
     },
     error::ParserError,
     stream::{AsChar, Stream, StreamIsPartial},
@@ -51,10 +51,14 @@ where
     // For now, we can't go with regular repeat because it's hard to have a initial value in Accumulate.
     trace(
         "metadata::block_metadata",
-        dispatch! {peek(any);
-            ';' => separated(1.., line_metadata, space1),
-            _ => preceded(line_ending, repeat(0.., preceded(space1, line_metadata))),
-        },
+        alt((
+            // the last line of the file may end without line ending.
+            eof.map(|_| Vec::new()),
+            dispatch! {peek(any);
+                ';' => separated(1.., line_metadata, space1),
+                _ => preceded(line_ending, repeat(0.., preceded(space1, line_metadata))),
+            },
+        )),
     )
     .parse_next(input)
 }
